@@ -24,7 +24,7 @@ func main() {
 	run := ev.Start("C03", "fault_enumeration")
 	keys := []string{"a", "b", "c"}
 	F, P := 1, 1
-	budget := 150 * time.Second
+	budget := 240 * time.Second
 	if run.Thorough() {
 		F, P = 2, 1
 		budget = 35 * time.Minute
